@@ -22,13 +22,21 @@ Open Scope Z_scope.
 (* ---------------------------------------------------------------------------------------------- *)
 (* operations *)
 
+(* An address ARGUMENT of an administrative method: the actor it resolves to, and whether it was given
+   as that actor's public-key address instead of its ID address.  resolve_to_actor_id maps both forms
+   to the same ID, so the methods only ever see `a_id`; the flag is kept because equality of payloads
+   must be equality of the serialised bytes (proposal hash, what is stored in a pending transaction).
+   Key addresses of actors that do not exist yet (which would create an account) are not modelled. *)
+Record addr := { a_id : N; a_key : bool }.
+Definition mk_addr (n : N) (k : bool) : addr := {| a_id := n; a_key := k |}.
+
 Inductive op :=
 | Propose (to : N) (value : Z) (p : payload)
 | Approve (id : Z) (h : hasharg)
 | Cancel (id : Z) (h : hasharg)
-| AddSigner (a : N) (inc : bool)
-| RemoveSigner (a : N) (dec : bool)
-| SwapSigner (a b : N)
+| AddSigner (a : addr) (inc : bool)
+| RemoveSigner (a : addr) (dec : bool)
+| SwapSigner (a b : addr)
 | ChangeThreshold (n : Z)
 | LockBalance (start dur amt : Z)
 with payload :=
@@ -92,14 +100,16 @@ Definition optN_eqb (a b : option N) : bool :=
   | _, _ => false
   end.
 
+Definition addr_eqb (a b : addr) : bool := N.eqb (a_id a) (a_id b) && Bool.eqb (a_key a) (a_key b).
+
 Fixpoint op_eqb (a b : op) {struct a} : bool :=
   match a, b with
   | Propose t v p, Propose t' v' p' => N.eqb t t' && (v =? v') && payload_eqb p p'
   | Approve i h, Approve i' h' => (i =? i') && hash_eqb h h'
   | Cancel i h, Cancel i' h' => (i =? i') && hash_eqb h h'
-  | AddSigner x i, AddSigner x' i' => N.eqb x x' && Bool.eqb i i'
-  | RemoveSigner x d, RemoveSigner x' d' => N.eqb x x' && Bool.eqb d d'
-  | SwapSigner x y, SwapSigner x' y' => N.eqb x x' && N.eqb y y'
+  | AddSigner x i, AddSigner x' i' => addr_eqb x x' && Bool.eqb i i'
+  | RemoveSigner x d, RemoveSigner x' d' => addr_eqb x x' && Bool.eqb d d'
+  | SwapSigner x y, SwapSigner x' y' => addr_eqb x x' && addr_eqb y y'
   | ChangeThreshold n, ChangeThreshold n' => n =? n'
   | LockBalance s d m, LockBalance s' d' m' => (s =? s') && (d =? d') && (m =? m')
   | _, _ => false
@@ -293,9 +303,9 @@ Definition wallet_method (cur : wallet) (bal e : Z) (caller self : N) (ex : N ->
   | Propose to v p => propose cur bal e caller to v p
   | Approve id h => approve cur bal e caller id h
   | Cancel id h => cancel cur caller id h
-  | AddSigner a inc => add_signer cur caller self ex a inc
-  | RemoveSigner a dec => remove_signer cur caller self a dec
-  | SwapSigner a b => swap_signer cur caller self ex a b
+  | AddSigner a inc => add_signer cur caller self ex (a_id a) inc
+  | RemoveSigner a dec => remove_signer cur caller self (a_id a) dec
+  | SwapSigner a b => swap_signer cur caller self ex (a_id a) (a_id b)
   | ChangeThreshold n => change_threshold cur caller self n
   | LockBalance s d m => lock_balance cur caller self s d m
   end.
@@ -440,9 +450,9 @@ Fixpoint enc_op (o : op) : list Z :=
   | Propose t v p => [1; zN t; v] ++ enc_payload p
   | Approve i h => [2; i] ++ enc_hash h
   | Cancel i h => [3; i] ++ enc_hash h
-  | AddSigner a i => [4; zN a; b2z i]
-  | RemoveSigner a d => [5; zN a; b2z d]
-  | SwapSigner a b => [6; zN a; zN b]
+  | AddSigner a i => [4; zN (a_id a); b2z (a_key a); b2z i]
+  | RemoveSigner a d => [5; zN (a_id a); b2z (a_key a); b2z d]
+  | SwapSigner a b => [6; zN (a_id a); b2z (a_key a); zN (a_id b); b2z (a_key b)]
   | ChangeThreshold n => [7; n]
   | LockBalance s d m => [8; s; d; m]
   end
